@@ -121,6 +121,35 @@ def symmetric_molecules(rng):
     return out
 
 
+def corner_molecules():
+    """Hand-specified molecules that put rarely combined format features into every
+    pool: (name, molecule, forced rendering).  Rendering "v2000-block" keeps charges
+    and doublet radicals in the atom block, "v2000-lines" uses M  CHG lines."""
+
+    def mk(atoms, bonds):
+        out = []
+        for i, a in enumerate(atoms):
+            d = {"sym": a[0], "x": 0.5 + 1.25 * i, "y": 0.25 * (i % 3), "z": 0.0}
+            d.update(a[1] if len(a) > 1 else {})
+            out.append(d)
+        return {"atoms": out, "bonds": [((a, b), t) for a, b, t in bonds]}
+
+    return [
+        ("LiD-ionpair", mk([("Li", {"chg": 1}), ("D", {"chg": -1})], []), "v2000-block"),
+        ("T-cation", mk([("T", {"chg": 1})], []), "v2000-block"),
+        ("ND4-cation", mk([("N", {"chg": 1}), ("D",), ("D",), ("D",), ("D",)], [(0, 1, 1), (0, 2, 1), (0, 3, 1), (0, 4, 1)]), "v2000-lines"),
+        ("NH4-cation", mk([("N", {"chg": 1}), ("H",), ("H",), ("H",), ("H",)], [(0, 1, 1), (0, 2, 1), (0, 3, 1), (0, 4, 1)]), "v2000-block"),
+        ("hydroxide", mk([("O", {"chg": -1}), ("H",)], [(0, 1, 1)]), "v2000-block"),
+        ("methyl-13C-radical", mk([("C", {"mass": 13, "rad": 2}), ("H",), ("H",), ("H",)], [(0, 1, 1), (0, 2, 1), (0, 3, 1)]), "v2000-block"),
+        ("methyl-13C-radical-v3", mk([("C", {"mass": 13, "rad": 2}), ("H",), ("H",), ("H",)], [(0, 1, 1), (0, 2, 1), (0, 3, 1)]), "v3000"),
+        ("HDO", mk([("H",), ("O",), ("D",)], [(0, 1, 1), (2, 1, 1)]), "v2000-lines"),
+        ("D2O", mk([("D",), ("O",), ("D",)], [(0, 1, 1), (2, 1, 1)]), "v3000"),
+        ("CH3Cl", mk([("C",), ("Cl",), ("H",), ("H",), ("H",)], [(0, 1, 1), (0, 2, 1), (0, 3, 1), (0, 4, 1)]), "v3000"),
+        ("nitrite", mk([("O", {"chg": -1}), ("N",), ("O",)], [(0, 1, 1), (1, 2, 2)]), "v2000-block"),
+        ("T-anion-Li", mk([("T", {"chg": -1}), ("Li", {"chg": 1})], []), "v2000-block"),
+    ]
+
+
 def redraw(mol, rng):
     """Same atoms, elements, isotopes, radicals and bonds in the same order; other
     coordinates, bond orders and charges (a resonance/conformer style redrawing)."""
@@ -171,9 +200,10 @@ def render_v3000(mol, rng=None, name="sim"):
 _CHG_CODE = {3: 1, 2: 2, 1: 3, -1: 5, -2: 6, -3: 7}
 
 
-def render_v2000(mol, rng, name="sim"):
+def render_v2000(mol, rng, name="sim", use_prop_lines=None):
     na, nb = len(mol["atoms"]), len(mol["bonds"])
-    use_prop_lines = rng.random() < 0.5
+    if use_prop_lines is None:
+        use_prop_lines = rng.random() < 0.5
     L = [name, "  simgen", "", f"{na:3d}{nb:3d}  0  0  0  0  0  0  0  0999 V2000"]
     rad_in_block = set()
     for i, a in enumerate(mol["atoms"]):
@@ -514,6 +544,11 @@ def build_pool_molfiles(master, repo, n_corpus, n_random, n_big, n_bad):
             # a redrawing of the same skeleton in the same atom order
             rid = pool.add("T", render(redraw(mol, rng), f"sim{k}r"), pool.mol_valid, src="redrawn", of=tid)
             pool.redrawn[tid] = rid
+    for name, mol, how in corner_molecules():
+        if how == "v3000":
+            pool.add("T", render_v3000(mol, rng, name), pool.mol_valid, src="corner-v3000")
+        else:
+            pool.add("T", render_v2000(mol, rng, name, use_prop_lines=(how == "v2000-lines")), pool.mol_valid, src="corner-" + how)
     for k, mol in enumerate(symmetric_molecules(rng)):
         if rng.random() < 0.3:
             pool.add("T", render_v2000(mol, rng, f"sym{k}"), pool.mol_valid, src="symmetric-v2000")
@@ -847,11 +882,12 @@ class _ClientGen:
             return i
         if k == "edit":
             j = r.choice(g)
-            inplace = r.random() < 0.4
+            how = r.choice(["chg", "bond", "coords", "all", "all", "del_atom", "reorder", "reorder"])
+            inplace = r.random() < 0.4 and how != "reorder"
             was_canon = j in self.live["canon"]
             if inplace:
                 self._retire(j)
-            return self._add({"op": "edit", "arg": j, "how": r.choice(["chg", "bond", "coords", "all", "all", "del_atom"]), "x": r.randrange(1000), "inplace": inplace}, "graph", canon=was_canon)
+            return self._add({"op": "edit", "arg": j, "how": how, "x": r.randrange(1000), "inplace": inplace}, "graph", canon=was_canon)
         if k == "mutate":
             j = r.choice(g)
             self._retire(j)
